@@ -9,17 +9,18 @@ def main(tier):
     c.run_family('plain', 'c06.py', 'flat', args=['--sub=q'] if quick else [], per_case_timeout=60, chunk=40 if quick else 20, nsamples=2)
     if not quick:
         c.build('asan', ['lcx'])
-        c.run_family('asan', 'c06.py', 'flat', args=['--skip-libunits=lib-mm-via-um'], per_case_timeout=150, chunk=20, nsamples=1)
+        c.run_family('asan', 'c06.py', 'flat', args=['--sub=q'], per_case_timeout=150, chunk=20, nsamples=1)
     return c.finish(
         rule='the full product of import structure {leaf, encapsulated child, child that is itself an import, import of an import, grandchild} x instances {one, the same component twice} x '
              'library units {metre, library mm, mm defined through another library units, mm used only in a cn, mm through a reference chain of depth 3} x units-name clash {none, same name same definition, same name different definition, '
              'root imports a different units under the same name, clash two levels below the import, importer owns the innermost library units under another name} x component-name clash {none, like the child, like the referenced component, import named like a library '
-             'component} x root units {local, imported units on a variable, imported units only in a cn, the same units imported twice} x {one, two} <math> elements in the imported component; each case is a distinct set of files; judged = cases flattened, validated, '
+             'component} x root units {local, imported units on a variable, imported units only in a cn, the same units imported twice} x {one, two} <math> elements in the imported component x {none, two, three} local components of the importing model encapsulated under the first import instance; library units also include two units the library itself imports and uses against their declaration order; each case is a distinct set of files; judged = cases flattened, validated, '
              'analysed, compiled and run (C and Python) and compared with ground-truth values computed from the spec including unit scales',
-        extra_cov={'quick_sub_product': 'quick restricts root units to {local, imported units on a variable} and component-name clash to {none, like the child}; thorough runs the full product'},
+        extra_cov={'quick_sub_product': 'quick restricts root units to {local, imported units on a variable}, component-name clash to {none, like the child} and local children under the import to the one-instance one-math-block cases; thorough runs the full product'},
         assumptions=[
             'ground truth: every library component computes y = 2x + 1 (through its child where present) in its own units; connected variables are converted with the ratio of the SI scales of their units',
             'only r_k = b_k + 0 is compared (a class of its own); classes merged with library variables are expressed in units the analyser chooses',
             'all input files validate on their own, so the flat model must validate with zero issues',
-            'thorough repeats the family under ASan+UBSan (memory safety of flattening) except the libunits=lib-mm-via-um quarter, whose clash cases hit the open unbounded-recursion finding and take minutes each under ASan; quick runs the plain build',
+            'thorough repeats the quick sub-product under ASan+UBSan (memory safety of flattening); quick runs the plain build',
+            'a local component moved below the instantiated import may come out renamed <name>_<n> (pinned by the repository test ModelFlattening.importingComponentThatAlsoHasAnImportedComponentAsAChild): its variables are looked up under either name',
         ])
